@@ -666,6 +666,82 @@ impl<'a> Ctx<'a> {
 		self.check_game_level("newer_version_fields", &g, false, out);
 	}
 
+	/// The reader's debug option (spec growth beyond the listed properties): the dump directory holds
+	/// exactly the files the model predicts, with the events' payload bytes.
+	pub fn debug_dump(&self, dir: &std::path::Path, out: &mut Vec<Viol>) {
+		use std::collections::BTreeMap;
+		let cls = shape_class(self.beh);
+		let _ = std::fs::remove_dir_all(dir);
+		let opts = slippi::de::Opts { skip_frames: false, compute_hash: false, debug: Some(slippi::de::Debug { dir: dir.to_path_buf() }) };
+		let res = guard(|| slippi::read(std::io::Cursor::new(&self.built.bytes[..]), Some(&opts)));
+		if !res.is_ok() {
+			out.push(outcome_viol("debug_read", &cls, &res));
+			return;
+		}
+		let l = self.db.for_version(self.built.ver[0], self.built.ver[1]);
+		let code_of = |k: &str| -> u8 {
+			match k {
+				"pre" => l.pre.code,
+				"post" => l.post.code,
+				"fs" => l.start.code,
+				"fe" => l.end.code,
+				"item" => l.item.code,
+				"ge" => 0x39,
+				"split" => 0x10,
+				"gecko" => 0x3D,
+				_ => 0,
+			}
+		};
+		let mut want: BTreeMap<(u8, usize), Vec<u8>> = BTreeMap::new();
+		// the Payloads event (table bytes) and Game Start are dumped too
+		let table_end = self.built.events_start - 1 - self.built.start_block.len();
+		want.insert((0x35, 0), self.built.bytes[self.built.raw_start + 2..table_end].to_vec());
+		want.insert((0x36, 0), self.built.start_block.clone());
+		for d in &self.beh.dump {
+			let data: Vec<u8> = if d.code == "gecko" {
+				d.toks.iter().flat_map(|t| self.built.ev_bufs[*t - 1][1..513].to_vec()).collect()
+			} else {
+				self.built.ev_bufs[d.toks[0] - 1][1..].to_vec()
+			};
+			want.insert((code_of(&d.code), d.n), data);
+		}
+		let mut got: BTreeMap<(u8, usize), Vec<u8>> = BTreeMap::new();
+		if let Ok(rd) = std::fs::read_dir(dir) {
+			for e in rd.flatten() {
+				let code: u8 = match e.file_name().to_string_lossy().parse() {
+					Ok(c) => c,
+					Err(_) => {
+						out.push(viol("debug_dump", &cls, "mismatch", format!("unexpected entry {:?}", e.file_name())));
+						continue;
+					}
+				};
+				if let Ok(rd2) = std::fs::read_dir(e.path()) {
+					for f in rd2.flatten() {
+						match f.file_name().to_string_lossy().parse::<usize>() {
+							Ok(n) => {
+								got.insert((code, n), std::fs::read(f.path()).unwrap_or_default());
+							}
+							Err(_) => out.push(viol("debug_dump", &cls, "mismatch", format!("unexpected file {:?}", f.path()))),
+						}
+					}
+				}
+			}
+		}
+		let _ = std::fs::remove_dir_all(dir);
+		for (k, v) in &want {
+			match got.get(k) {
+				None => out.push(viol("debug_dump", &cls, "mismatch", format!("dump file {}/{} missing", k.0, k.1))),
+				Some(g) if g != v => out.push(viol("debug_dump", &cls, "mismatch", format!("dump file {}/{} holds other bytes than the event's payload", k.0, k.1))),
+				_ => {}
+			}
+		}
+		for k in got.keys() {
+			if !want.contains_key(k) {
+				out.push(viol("debug_dump", &cls, "mismatch", format!("unexpected dump file {}/{}", k.0, k.1)));
+			}
+		}
+	}
+
 	/// C02: .slp -> .slpp -> .slp under each compression; hash and quirks carried.
 	pub fn slpp_roundtrip(&self, comps: &[Comp], with_hash: bool, out: &mut Vec<Viol>) {
 		let cls = shape_class(self.beh);
